@@ -334,6 +334,10 @@ def apply(seq, op, world: World):
         return seq.delay(op[1], op[2], at_rest=op[3] if len(op) > 3 else False)
     if k == "target":
         return seq.target(_tl(op[1], world), op[2])
+    if k == "target_kw":  # the same call with every argument by keyword (containers included)
+        return seq.target(qubits=_tl(op[1], world), channel=op[2])
+    if k == "slm_kw":
+        return seq.config_slm_mask(qubits=_tl(op[1], world), **({"dmm_id": op[2]} if len(op) > 2 else {}))
     if k == "target_index":
         return seq.target_index(_tl(op[1], world), op[2])
     if k == "align":
@@ -435,7 +439,7 @@ def read_only(seq, op, world):
 def op_channels(op) -> tuple:
     """Names of the channels an op may append slots to."""
     k = op[0]
-    if k in ("add", "delay", "target", "target_index", "add_dmm", "eom_pulse_v", "enable_eom_v", "modify_eom_v", "delay_v"):
+    if k in ("add", "delay", "target", "target_kw", "target_index", "add_dmm", "eom_pulse_v", "enable_eom_v", "modify_eom_v", "delay_v"):
         return (op[2],)
     if k == "add_v":
         return (op[3],)
